@@ -916,3 +916,178 @@ Proof.
   split; [reflexivity|]. split; [reflexivity|]. split; [apply perm_swap|].
   split; [intros H; vm_compute in H; discriminate H|reflexivity].
 Qed.
+
+(* ------------------------------------------------------------------ *)
+(** * B3. slate ballot types: the loop follows "draw by cohesion, renormalise, shuffle at zero" *)
+
+(* one iteration of the loop, given the bin of the flip *)
+Theorem type_loop_step : forall flip rest blocs values sizes acc sh i b,
+  which_bin (bins_of values) flip 0 = Some i -> nth_error blocs i = Some b ->
+  type_loop (flip :: rest) blocs values sizes acc sh =
+  (if Nat.eqb (count_bloc b (b :: acc)) (size_of sizes b)
+   then
+     if Qeq_bool (qsum (remove_nth i values)) 0 && nonempty (remove_nth i values)
+     then match sh with
+          | Some s => ok (rev (b :: acc) ++ s, [GShuffle (type_multiset sizes (remove_nth i blocs))])
+          | None => err EScript
+          end
+     else type_loop rest (remove_nth i blocs)
+            (map (fun v => v / qsum (remove_nth i values)) (remove_nth i values)) sizes (b :: acc) sh
+   else type_loop rest blocs values sizes (b :: acc) sh).
+Proof.
+  intros flip rest blocs values sizes acc sh i b Hw Hb. cbn [type_loop]. rewrite Hw, Hb. reflexivity.
+Qed.
+
+(* after a slate is removed the remaining values are rescaled to sum to one *)
+Theorem renormalised_sum_one : forall values' : list Q,
+  ~ qsum values' == 0 -> qsum (map (fun v => v / qsum values') values') == 1.
+Proof.
+  intros values' H. rewrite (qsum_map_div (fun v => v) (qsum values') values'), map_id. field. exact H.
+Qed.
+
+Lemma dbind_intro : forall {A B} (d : dist A) (f : A -> dist B) a w b q,
+  In (a, w) d -> In (b, q) (f a) -> In (b, w * q) (dbind d f).
+Proof.
+  intros A B d f a w b q. induction d as [|aw d IH]; intros Ha Hb; [destruct Ha|].
+  rewrite dbind_cons. apply in_or_app. destruct Ha as [->|Ha].
+  - left. unfold dscale. apply in_map_iff. exists (b, q). split; [reflexivity|exact Hb].
+  - right. apply IH; assumption.
+Qed.
+
+Lemma nth_error_combine_seq : forall (vs : list Q) s i v,
+  nth_error vs i = Some v -> In ((s + i)%nat, v) (combine (seq s (length vs)) vs).
+Proof.
+  induction vs as [|x vs IH]; intros s [|i] v H; cbn [nth_error] in H; try discriminate.
+  - injection H as <-. cbn [length seq combine]. left. rewrite Nat.add_0_r. reflexivity.
+  - cbn [length seq combine]. right. replace (s + S i)%nat with (S s + i)%nat by lia. apply IH. exact H.
+Qed.
+
+Lemma map_snd_combine_seq : forall (vs : list Q) s, map snd (combine (seq s (length vs)) vs) = vs.
+Proof.
+  induction vs as [|x vs IH]; intros s; [reflexivity|]. cbn [length seq combine map snd]. rewrite IH. reflexivity.
+Qed.
+
+Lemma qsum_ge_member : forall l v, Forall (fun x => 0 <= x) l -> In v l -> v <= qsum l.
+Proof.
+  induction l as [|x l IH]; intros v Hnn Hin; [destruct Hin|].
+  inversion Hnn as [|y l' Hx Hnn']; subst. rewrite qsum_cons.
+  pose proof (qsum_nonneg l Hnn') as Hl. destruct Hin as [<-|Hin]; [lra|].
+  pose proof (IH v Hnn' Hin). lra.
+Qed.
+
+Definition types_branch (n : nat) (blocs : list bloc) (values : list Q) (sizes : list (bloc * nat))
+           (acc : list bloc) (i : nat) (b : bloc) : dist (list bloc) :=
+  if Nat.eqb (count_bloc b (b :: acc)) (size_of sizes b)
+  then
+    if Qeq_bool (qsum (remove_nth i values)) 0 && nonempty (remove_nth i values)
+    then dbind (uniform_of (arrangements_ms (type_remaining sizes (remove_nth i blocs))))
+               (fun s => dret (rev (b :: acc) ++ s))
+    else law_types n (remove_nth i blocs)
+           (map (fun v => v / qsum (remove_nth i values)) (remove_nth i values)) sizes (b :: acc)
+  else law_types n blocs values sizes (b :: acc).
+
+Lemma law_types_S : forall n blocs values sizes acc,
+  law_types (S n) blocs values sizes acc =
+  dbind (categorical (combine (seq 0 (length values)) values)) (fun i =>
+    match nth_error blocs i with
+    | None => []
+    | Some b => types_branch n blocs values sizes acc i b
+    end).
+Proof. reflexivity. Qed.
+
+Lemma law_types_step_intro : forall n blocs values sizes acc i v b t w,
+  nth_error values i = Some v -> nth_error blocs i = Some b ->
+  In (t, w) (types_branch n blocs values sizes acc i b) ->
+  In (t, (v / qsum values) * w) (law_types (S n) blocs values sizes acc).
+Proof.
+  intros n blocs values sizes acc i v b t w Hv Hb Hin. rewrite law_types_S.
+  apply (dbind_intro _ _ i (v / qsum values) t w).
+  - unfold categorical. apply in_map_iff. exists (i, v). cbn [fst snd].
+    rewrite map_snd_combine_seq. split; [reflexivity|]. apply (nth_error_combine_seq values 0 i v Hv).
+  - cbv beta. rewrite Hb. exact Hin.
+Qed.
+
+(* every type the loop returns is an outcome of positive probability of [law_types] *)
+Theorem law_types_support : forall sizes flips blocs values acc sh t calls,
+  Forall (fun v => 0 <= v) values ->
+  (forall pop, In (GShuffle pop) calls -> exists s, sh = Some s /\ Permutation s pop) ->
+  type_loop flips blocs values sizes acc sh = inl (t, calls) ->
+  exists w, In (t, w) (law_types (length flips) blocs values sizes acc) /\ 0 < w.
+Proof.
+  intros sizes flips. induction flips as [|flip rest IH]; intros blocs values acc sh t calls Hnn Hsh H.
+  - cbn [type_loop] in H. injection H as <- <-. exists 1. split; [left; reflexivity|reflexivity].
+  - destruct (which_bin (bins_of values) flip 0) as [i|] eqn:Ew; [|cbn [type_loop] in H; rewrite Ew in H; discriminate].
+    destruct (nth_error blocs i) as [b|] eqn:Eb; [|cbn [type_loop] in H; rewrite Ew, Eb in H; discriminate].
+    rewrite (type_loop_step flip rest blocs values sizes acc sh i b Ew Eb) in H.
+    apply which_bin_spec in Ew. destruct Ew as (v & Ev & _ & _ & Hvpos).
+    assert (HW : 0 < qsum values).
+    { pose proof (qsum_ge_member values v Hnn (nth_error_In _ _ Ev)). lra. }
+    assert (Hstep : 0 < v / qsum values) by (apply Qlt_shift_div_l; [exact HW|lra]).
+    cbn [length].
+    assert (Hbranch : exists w, In (t, w) (types_branch (length rest) blocs values sizes acc i b) /\ 0 < w).
+    { unfold types_branch.
+      destruct (Nat.eqb (count_bloc b (b :: acc)) (size_of sizes b)).
+      - destruct (Qeq_bool (qsum (remove_nth i values)) 0 && nonempty (remove_nth i values)) eqn:Ez.
+        + destruct sh as [s|]; [|discriminate]. injection H as <- <-.
+          destruct (Hsh _ (or_introl eq_refl)) as (s' & Es & Ps). injection Es as <-.
+          change (type_multiset sizes (remove_nth i blocs)) with (type_remaining sizes (remove_nth i blocs)) in Ps.
+          set (arr := arrangements_ms (type_remaining sizes (remove_nth i blocs))).
+          assert (Hs : In s arr) by (apply arrangements_spec; exact Ps).
+          exists ((1 / Qnat (length arr)) * 1). split.
+          * apply (dbind_intro _ _ s). 
+            -- unfold uniform_of. apply in_map_iff. exists s. split; [reflexivity|exact Hs].
+            -- left. reflexivity.
+          * assert (Hl : (0 < length arr)%nat) by (destruct arr; [destruct Hs|cbn; lia]).
+            pose proof (Qnat_pos _ Hl) as Hp.
+            assert (0 < 1 / Qnat (length arr)) by (apply Qlt_shift_div_l; [exact Hp|lra]). lra.
+        + apply (IH _ _ _ _ _ _) in H; [exact H| |exact Hsh].
+          apply Forall_forall. intros w Hw. apply in_map_iff in Hw. destruct Hw as (w0 & <- & Hw0).
+          assert (Hnn' : Forall (fun v => 0 <= v) (remove_nth i values)).
+          { destruct (nth_error_decomp _ values i v Ev) as (m1 & m2 & Hv & _ & ->).
+            rewrite Hv in Hnn. apply Forall_app in Hnn. destruct Hnn as [N1 N2].
+            inversion N2; subst. apply Forall_app. split; assumption. }
+          pose proof (qsum_nonneg _ Hnn') as Hge.
+          assert (Hw0' : 0 <= w0) by (rewrite Forall_forall in Hnn'; apply Hnn'; exact Hw0).
+          destruct (remove_nth i values) as [|x xs] eqn:Er; [destruct Hw0|].
+          cbn [nonempty] in Ez. rewrite andb_true_r in Ez. apply Lib_rk.Qeq_bool_false_iff in Ez.
+          assert (Hp : 0 < qsum (x :: xs)).
+          { destruct (Qlt_le_dec 0 (qsum (x :: xs))) as [Hp|Hq]; [exact Hp|].
+            exfalso. apply Ez. apply Qle_antisym; assumption. }
+          apply Qle_shift_div_l; [exact Hp|]. lra.
+      - apply (IH _ _ _ _ _ _ Hnn Hsh H). }
+    destruct Hbranch as (w & Hin & Hw).
+    exists ((v / qsum values) * w). split.
+    + apply (law_types_step_intro (length rest) blocs values sizes acc i v b t w Ev Eb Hin).
+    + apply Qmult_lt_0_compat; assumption.
+Qed.
+
+(* ------------------------------------------------------------------ *)
+(** * B4 (slate): the exact slate-Bradley-Terry sampler's table *)
+
+Theorem exact_slate_bt_table_law : forall (own opp : bloc) (a b : nat) (sizes : list (bloc * nat)) c all,
+  own <> opp ->
+  sizes = [(own, a); (opp, b)] \/ sizes = [(opp, b); (own, a)] ->
+  0 <= c -> c <= 1 ->
+  enumerates all (repeat own a ++ repeat opp b) ->
+  qsum (map snd (slate_bt_pdf sizes own opp c)) == 1 /\
+  mass (categorical (slate_bt_pdf sizes own opp c)) == 1 /\
+  (forall t, Permutation t (repeat own a ++ repeat opp b) ->
+     exists v, In (t, v) (slate_bt_pdf sizes own opp c)) /\
+  (forall t v, In (t, v) (slate_bt_pdf sizes own opp c) ->
+     Permutation t (repeat own a ++ repeat opp b) /\
+     v == slate_weight c own opp t / qsum (map (slate_weight c own opp) all) /\
+     slate_weight c own opp t = slate_stat own c t /\
+     prob (list_peqb t) (categorical (slate_bt_pdf sizes own opp c)) == v).
+Proof.
+  intros own opp a b sizes c all Hne Hs H0 H1 Hall.
+  destruct (slate_bt_two own opp a b sizes Hne Hs c all Hall) as (Hex & Hent).
+  destruct (slate_bt_two_sums_to_one own opp a b sizes Hne Hs c H0 H1) as (Hsum & _ & Hnd & _).
+  split; [exact Hsum|]. split.
+  { apply mass_categorical. rewrite Hsum. discriminate. }
+  split; [exact Hex|].
+  intros t v Hin. destruct (Hent t v Hin) as (P & _ & E). split; [exact P|]. split; [exact E|]. split.
+  - symmetry. apply slate_stat_two; [exact Hne|]. intros x Hx.
+    apply (Permutation_in _ P) in Hx. apply in_app_or in Hx.
+    destruct Hx as [Hx|Hx]; apply repeat_spec in Hx; [left|right]; exact Hx.
+  - rewrite prob_categorical, Hsum, (select_table _ t v Hnd Hin). field.
+Qed.
